@@ -776,7 +776,9 @@ func (g *gen) shareStmt(lvl int) string {
 		call += ")"
 		return in + "try {\n" + in + "\tlog(string(" + call + "))\n" + in + "} catch " + e + " {\n" + in + "\tlog(\"json:\", " + e + ".Message)\n" + in + "}\n"
 	case 9: // a container attribute of a builtin module written and read directly through import expressions
-		return in + "import(\"host\").arr[" + fmt.Sprint(g.t.Draw(3)) + "] = len(WID) * " + fmt.Sprint(2+g.t.Draw(9)) + "\n" + in + "import(\"host\").nested.arr[0] = WID\n" + in + "log(import(\"host\").arr, import(\"host\").nested.arr[0])\n"
+		za, zn := g.fresh("za"), g.fresh("zn")
+		return in + za + " := import(\"host\").arr\n" + in + za + "[" + fmt.Sprint(g.t.Draw(3)) + "] = len(WID) * " + fmt.Sprint(2+g.t.Draw(9)) + "\n" +
+			in + zn + " := import(\"host\").nested\n" + in + zn + ".arr[0] = WID\n" + in + "log(import(\"host\").arr, import(\"host\").nested.arr[0])\n"
 	case 8: // a writable value made from a constant: the constant itself must stay what it was
 		b, lit := g.fresh("b"), g.strLit()
 		return in + b + " := bytes(" + lit + ")\n" + in + "if len(" + b + ") > 0 { " + b + "[0] = 65 + len(WID) }\n" + in + "log(string(" + b + "), " + lit + ")\n"
